@@ -4,7 +4,7 @@
    cluster state (both REAL; configuration compared canonically, statuses on the objects the fresh controller
    writes). Flags name history features that put a case into the class of a recorded finding. *)
 From Coq Require Import List String Ascii ZArith Bool Arith.
-From NGF Require Export lib.CaseLib lib.Str k8s.State k8s.Spec ngx.Lexer ngx.Eval C04.Check C17.Check.
+From NGF Require Export lib.CaseLib lib.Str k8s.State k8s.Spec ngx.Lexer ngx.Eval C04.Check C17.Check C01.Model.
 Import ListNotations.
 Local Open Scope string_scope.
 Local Open Scope list_scope.
@@ -17,8 +17,24 @@ Record case := Case {
   k_fresh_matches : matchtable;
   k_long_conds : list string;
   k_fresh_conds : list string;
-  k_flags : list string
+  k_flags : list string;
+  (* every event delivered to the current incarnation of the controller (start-up listing included) that concerns a kind the
+     processor persists: deleted?, key, generation; and what the processor's cluster state holds *)
+  k_delivered : list (bool * string * Z);
+  k_store : list (string * Z)
 }.
+
+(* the store the delivered events prescribe: the generic model's [store_after] with an association list as the store *)
+Fixpoint kv_remove (k : string) (l : list (string * Z)) : list (string * Z) :=
+  match l with [] => [] | (k', v) :: l' => if seqb k k' then kv_remove k l' else (k', v) :: kv_remove k l' end.
+Definition kv_upd (l : list (string * Z)) (e : bool * string * Z) : list (string * Z) :=
+  let '(del, k, g) := e in if del then kv_remove k l else (k, g) :: kv_remove k l.
+Definition kv_store (evs : list (bool * string * Z)) : list (string * Z) := store_after _ _ kv_upd [] [evs].
+
+Definition kv_subset (a b : list (string * Z)) : bool :=
+  forallb (fun x => existsb (fun y => seqb (fst x) (fst y) && Z.eqb (snd x) (snd y)) b) a.
+Definition store_ok (c : case) : bool :=
+  let m := kv_store (k_delivered c) in kv_subset m (k_store c) && kv_subset (k_store c) m.
 
 Definition known_D12 := 12.
 Definition known_D31 := 31.
@@ -41,7 +57,7 @@ Definition class_D31 (long fresh : list string) : bool :=
                     mem_str (cond_head x ^^ "Accepted=False:GatewayIgnored") fresh &&
                     mem_str (cond_head x ^^ "Accepted=False:GatewayIgnored") long) diff.
 
-Definition complaints (c : case) : list (nat * string) :=
+Definition complaints_main (c : case) : list (nat * string) :=
   let cfg_ok := files_equal (k_long_files c) (k_long_matches c) (k_fresh_files c) (k_fresh_matches c) in
   let st_ok := str_list_eqb (k_long_conds c) (k_fresh_conds c) in
   if cfg_ok && st_ok then []
@@ -52,5 +68,10 @@ Definition complaints (c : case) : list (nat * string) :=
          [(code_known known_D31, "statuses differ for a Route of an ignored Gateway (finding D31)")]
   else (if cfg_ok then [] else [(code_violation, "last applied configuration differs from a fresh controller's")]) ++
        (if st_ok then [] else [(code_violation, "statuses differ from a fresh controller's")]).
+
+(* the processor's cluster state is what the delivered events prescribe, whatever was judged relevant *)
+Definition complaints (c : case) : list (nat * string) :=
+  (if store_ok c then [] else [(code_violation, "the processor's cluster state is not the fold of the delivered events")]) ++
+  complaints_main c.
 
 Definition check_case (c : case) : list nat := dedup_nat (map fst (complaints c)).
